@@ -214,10 +214,19 @@ def check_child_registration_guards(c: Ctx) -> None:
             f'{ev}.event_id != {cur}.event_id', f'{cur}.event_id != {ev}.event_id', f'{self_}.event_queue', f'{self_}.event_queue is not None',
         }
         bad = []
+        # the allowed conditions, taken as facts: a guarding test in any spelling (De Morgan, a repeated `is not None`, `==` negated) is fine when these facts decide it
+        fx = Facts(lambda a_: True, cg=c.cg, unit=d)
+        env: dict = {}
+        for t_ in sorted(allowed):
+            if 'None.' in t_ or t_.startswith('None'):
+                continue
+            env = fx.assume(ast.parse(t_, mode='eval').body, True, env) or env
         for site, a in [(site, a) for site in [w.node] + extra_sites for a in q.ancestors_of(site) if isinstance(a, ast.If)]:
             in_body = q.lexically_in(site, a, 'body')
             conj = a.test.values if isinstance(a.test, ast.BoolOp) and isinstance(a.test.op, ast.And) else [a.test]
             if not in_body:
+                if fx.eval(a.test, dict(env)) is False:
+                    continue
                 neg = negated_conjuncts(a.test)
                 if neg is None:
                     bad.append(f'else-branch of `{U(a.test)[:60]}`')
@@ -225,7 +234,7 @@ def check_child_registration_guards(c: Ctx) -> None:
                     bad.extend(x for x in neg if x not in allowed)
                 continue
             for x in conj:
-                if U(x) not in allowed:
+                if U(x) not in allowed and fx.eval(x, dict(env)) is not True:
                     bad.append(U(x)[:70])
         if not bad:
             c.ok(where(d, w.node), 'child registration is conditional only on: handler context present, not the event being handled, event accepted')
